@@ -37,6 +37,8 @@ def finding_key(req, obs, detail):
         return K_ENUMUINT
     if req.startswith("C13.mix\t"):
         return "\t".join(req.split("\t")[:2])
+    if req.startswith("C13.inst\t"):
+        return "\t".join(req.split("\t")[:3])
     return req.split("\tsrc:")[0]
 
 
@@ -65,6 +67,13 @@ def _subtrees(s):
 
 def shrink(req):
     f = req.split("\t")
+    if f[0] == "C13.inst" and len(f) >= 3:
+        # one use less
+        names = f[2].split(" ")
+        if len(names) > 1:
+            for i in range(len(names)):
+                yield "C13.inst\t%s\t%s" % (f[1], " ".join(names[:i] + names[i + 1:]))
+        return
     if f[0] == "C13.mix" and len(f) >= 2:
         # a source tree: one of its operand subtrees, or one operand replaced by one of its operands
         for sub in _subtrees(f[1]):
@@ -110,7 +119,7 @@ def search(ctx):
 
 SPEC = {
     "id": "C13",
-    "gens": ["EvalTable", "EvalSites", "PosTable", "RankTable", "TypingTables", "BinopTyping"],
+    "gens": ["EvalTable", "EvalSites", "PosTable", "RankTable", "TypingTables", "BinopTyping", "InstTable"],
     "lean_modules": ["RsslVerif.Thm.C13"],
     "theorems": [T + n for n in [
         "consteval_no_panic", "tables_panic_free", "consteval_agrees", "div_mod_zero_not_constant",
@@ -120,7 +129,10 @@ SPEC = {
         "position_count_rejections", "case_label_value", "const_initialiser_value", "template_argument_value",
         "template_argument_not_converted", "lod_property_value", "lod_property_complete", "lod_property_rejections",
         "enum_values_c_semantics", "enum_rejected_only_out_of_range", "enum_overflow_only_at_type_max", "enum_no_panic",
-        "binop_common_type_as_specified_partial", "binop_common_type_enum_operand_as_specified", "binop_common_type_literal_pairs"]],
+        "binop_common_type_as_specified_partial", "binop_common_type_enum_operand_as_specified", "binop_common_type_literal_pairs",
+        "instantiation_lookup_is_exact", "each_instantiation_sees_its_own_argument",
+        "each_instantiation_sees_the_value_of_its_argument_expression", "struct_instantiation_sees_its_own_arguments",
+        "to_uint64_key_identifies_negative_arguments"]],
     "harness": "c13",
     "nontrivial": nontrivial,
     "finding_key": finding_key,
@@ -156,7 +168,19 @@ SPEC = {
                   "other kind (untyped literals included) is proved, without exception, to take part as its underlying int / uint "
                   "(the step of most_significant_non_vector that does this is re-extracted too). A source-level stream (C13.mix) "
                   "folds every operator on every pair of kinds with the real compiler and judges the value with a reference evaluator "
-                  "that applies the usual arithmetic conversions itself instead of trusting the casts the type checker inserted.",
+                  "that applies the usual arithmetic conversions itself instead of trusting the casts the type checker inserted. "
+                  "Several instantiations of one template in one compilation: how an existing instantiation is found again "
+                  "(FunctionRegistry::find_instantiation: `parent_id == id` and the comparison of the recorded with the requested "
+                  "argument list — `==`, the derived equality of TypeOrConstant / RestrictedConstant, kind and value; the struct "
+                  "template map HashMap<Vec<TypeOrConstant>, StructId> asked with the provided and with the completed list) is "
+                  "re-extracted; over an association-list model of the cache it is proved, for every history of instantiations, "
+                  "that a lookup returns an entry only if its recorded argument list equals the requested one and always finds an "
+                  "existing one (instantiation_lookup_is_exact), hence that for every sequence of uses of any templates with any "
+                  "arguments, in any order, every use is bound to what building the template from its own arguments gives "
+                  "(each_instantiation_sees_its_own_argument, ..._the_value_of_its_argument_expression, "
+                  "struct_instantiation_sees_its_own_arguments); a key that matches value arguments through to_uint64 is proved to "
+                  "identify -1 with -2 and 3 with 3u (negation witness). The stream C13.inst compiles one template used 2-8 times "
+                  "with colliding arguments and demands, use by use, what the same use shows compiled alone.",
     "rule": "requests: C13.eval = IR expression tree (module lookups inlined) run through the real evaluate_constexpr — "
             "(1) depth-1 trees: every integer/comparison operator on all pairs of boundary operands per kind, every unary operator and "
             "every cast target on every boundary constant of every kind, float comparisons on boundary pairs; (2) kind-consistent random "
@@ -180,6 +204,16 @@ SPEC = {
             "every unary operator on every atom, ?: over every pair of kinds, random trees of depth 2-3; rendered to source, type "
             "checked and folded by the real compiler, judged by the usual arithmetic conversions; the IR and (depth 1) the type "
             "both operands were converted to are compared with the model; "
+            "C13.inst = one function template (int and uint parameter), one function template handing its parameter on to a second "
+            "one, one struct template with a default, used 2-8 times in one function with arguments from a pool of 37 atoms made to "
+            "collide under every key coarser than kind-and-value: negatives (-1 -2 -3 -5 -7 -99, (int)-1, E0D, -gI, INT_MIN), constant "
+            "expressions folding to equal and to different values (1 - 4, 2 - 7, 0 - 3, 1 + 2, 3 + 4, 4294967296 - 1), one value in "
+            "different kinds (1 1u true E0B E1A (int)1; 3 3u (int)3 NS::nI 3L; 7 gI), values equal mod 2^32 / 2^64 (-1, 4294967295u, "
+            "4294967295, 4294967296, 2^64-1, -(2^64-1), 2147483648u) — every ordered pair, every ordered triple of negatives "
+            "(quick: a quarter), 300 (thorough 4000) random sequences with repetitions per shape; observed per use: the argument "
+            "recorded with the instantiation the call / variable is bound to, the size of `int pa[N + 100]` in it and the value of "
+            "`return N`; oracle: equal to what the single-use program shows, accepted iff every use alone is, and value + 100 / value "
+            "for arguments that fit the parameter type; "
             "non-trivial = contains an operator or cast",
     "trusted_base": [
         "Lean 4.33 kernel; axioms propext / Classical.choice / Quot.sound only (audited by #print axioms)",
@@ -199,6 +233,17 @@ SPEC = {
         "promotes to int, enum through its underlying type, literal < int < uint < float literal < half < float < double; two "
         "operands of one enum stay of that enum); harness/src/c13_mix.rs `reference_s` (same rules written independently in Rust; "
         "shifts whose promoted operands differ in signedness and float arithmetic are not judged)",
+        "tools/gens/c13.py Gen.InstTable (the whole body of FunctionRegistry::find_instantiation: loop over all function ids, "
+        "`parent_id == id`, and the comparison — `instantiation_data.template_args == template_args` is read as exact, an element-wise "
+        "`.all(|(lhs, rhs)| lhs.M(rhs))` is followed into TypeOrConstant::M and read as exact or as to_uint64 equality, anything "
+        "else is an extraction error; RestrictedConstant::to_uint64 = Constant::to_uint64 of the unrestricted constant; the derive "
+        "lists of RestrictedConstant / TypeOrConstant and the absence of hand-written PartialEq / Eq / Hash; the variants of "
+        "RestrictedConstant; the two callers in scopes.rs; StructTemplateData.instantiations and its three uses in "
+        "ensure_struct_template / instantiate_struct_template), Model/InstCache.lean (find / use / run, useStruct / runStruct: first "
+        "match in id order, build and register on a miss; what an instantiation contains is an abstract function of its argument "
+        "list — tied by the C13.inst stream, whose model input is the argument, argument + 100 and the argument converted to the "
+        "return type as the real type checker types them standalone); that Rust's derived PartialEq / Hash on these enums and "
+        "HashMap::get compare kind and value is taken from the language",
         "hand-written Model/ConstEval.lean and Model/ConstPos.lean (control flow of the modelled functions; Rust integer semantics of "
         "plain/wrapping/checked operations and `as` casts) — tied to the code by the correspondence run",
         "Model/ConstEvalFloat.lean `decode` (meaning of an IEEE-754 bit pattern), `cmp`, `neg`, `neZero`: given; `round`, `ofInt`, "
@@ -222,6 +267,11 @@ SPEC = {
         "conversions the type checker inserts for unary operators, ?: and casts between enums are judged by the source-level "
         "reference evaluator only (no extracted table; ?: is never folded by the pinned compiler); vector / matrix operands of "
         "operators are outside C13's constant expressions",
+        "instantiations: the body of an instantiation is a function of the template and the recorded argument list only "
+        "(`build`; no other state of the compilation reaches it) — checked by the together = alone oracle of C13.inst, not proved; "
+        "template TYPE arguments and intrinsic templates (build_intrinsic_template uses the same find_instantiation) are covered by "
+        "the theorems (Arg.type) but not generated; a stack overflow of the real compiler aborts the harness process and is reported "
+        "as a broken run, not attributed to its input",
         "positions whose value flows through further declarations (flow_*), the conversion of `return N` in template bodies, "
         "RayQuery flags and assert_eval acceptance are judged by the reference evaluator only (no Lean model); name clashes of "
         "enumerators and overload resolution between templates are other properties' subjects",
